@@ -22,5 +22,12 @@ let handle cmd args : string option =
           let one = Printf.sprintf "%s %d %d" (v3s m.mv_hkl) s kk in
           Some (Printf.sprintf "%s %s %s D %s" one sw sw one))
      | _ -> Some "EXC")
+  | "expand", [row; h; k; l] ->
+    (match row_ops row with
+     | HOk g ->
+       let cs = expand_entry g ((zi h, zi k), zi l) in
+       Some (String.concat " " (string_of_int (List.length cs) ::
+               List.map (fun c -> Printf.sprintf "%s %d" (v3s c.cp_hkl) (modp (iz c.cp_shift) 24)) cs))
+     | _ -> Some "EXC")
   | _ -> None
 let () = serve handle
